@@ -13,3 +13,13 @@ def conj(x, y):
 
 def disj(x, y):
     return x | y
+
+
+def agg_step(spec, target, tree):
+    """one Group-mode aggregation step of a reduction spec, by ordinary method dispatch on the spec's class"""
+    return spec._agg(target, tree)
+
+
+def fold_all(spec, iterator):
+    """the plain-mode fold of a reduction spec, by ordinary method dispatch on the spec's class"""
+    return spec._fold(iterator)
